@@ -38,6 +38,7 @@ type FuncSpec struct {
 	HasAssign bool
 	Preserves []*Clause // locations the function never modifies (negative frame; used when no assigns is declared)
 	Guards    []*GuardClause // control-flow contracts decided on the CFG (frames back end)
+	Orders    []*OrderClause // "order A before B": no A is reachable once a B has been executed
 	Trusted   bool
 	MayPanic  bool
 	NoInline  bool
@@ -112,6 +113,16 @@ type GuardClause struct {
 	Line   int
 }
 
+// OrderClause: "order <anchorA> before <anchorB>": on no path is an instruction
+// matching A executed after one matching B (anchors as in `assert at`, with
+// optional #k occurrence).
+type OrderClause struct {
+	A, B string
+	Text string
+	File string
+	Line int
+}
+
 type SpecFile struct {
 	Alt    map[string][]*FuncSpec // further contracts for the same function name (each restricted by flag only_for)
 	Lemmas map[string]*Lemma
@@ -126,7 +137,7 @@ func NewSpecFile() *SpecFile {
 }
 
 var clauseKeywords = map[string]bool{"requires": true, "ensures": true, "invariant": true, "decreases": true,
-	"assigns": true, "preserves": true, "guard": true, "loop": true, "may_panic": true, "trusted": true, "pure": true, "abstract": true, "axiom": true,
+	"assigns": true, "preserves": true, "guard": true, "order": true, "loop": true, "may_panic": true, "trusted": true, "pure": true, "abstract": true, "axiom": true,
 	"func": true, "lemma": true, "noinline": true, "opaque": true, "flag": true, "let": true, "may_panic_at": true, "extends": true, "foreach_field": true, "ghost": true, "assert": true}
 
 // ParseSpecFile reads //@ lines from path and adds them to sf.
@@ -338,6 +349,13 @@ func (sf *SpecFile) ParseSpecFile(path string) error {
 					cur.Assigns = append(cur.Assigns, cs...)
 					cur.HasAssign = true
 				}
+			case "order":
+				a, b, ok := strings.Cut(strings.TrimSpace(r.text), " before ")
+				if !ok {
+					return fmt.Errorf("%s: expected 'order <anchor> before <anchor>'", loc)
+				}
+				curLoop = nil
+				cur.Orders = append(cur.Orders, &OrderClause{A: strings.TrimSpace(a), B: strings.TrimSpace(b), Text: r.text, File: path, Line: r.line})
 			case "guard":
 				eff, gs, ok := strings.Cut(strings.TrimSpace(r.text), " by ")
 				if !ok {
